@@ -15,3 +15,13 @@ def c03m4_told(ex, st, expr, betas):
     Expression.change_init_values, proved to reach every child)."""
     f = uf('c03m4_told', Val, Val, z3.BoolSort())
     return v_bool(f(ex.box(st, expr), ex.box(st, betas)))
+
+
+@spec('c03m4_reports')
+def c03m4_reports(ex, st, expr, the_type, name):
+    """the (mathematical) relation "formula `expr` contains an elementary expression of kind `the_type` called `name`":
+    uninterpreted; the abstract contract of Expression.dict_of_elementary_expression says that the keys of the returned
+    dictionary are exactly the names in this relation (leaf: Beta.dict_of_elementary_expression, proved:
+    reported_iff_kind_matches_status)."""
+    f = uf('c03m4_reports', Val, Val, Val, z3.BoolSort())
+    return v_bool(f(ex.box(st, expr), ex.box(st, the_type), ex.box(st, name)))
